@@ -254,9 +254,9 @@ func supervise(fam *family, in, out string, watchdog time.Duration) error {
 							}
 						} else if len(l) > 2 && l[0] == 'F' && l[1] == '\t' {
 							w.Write(l[2:])
-						} else {
-							w.Write(l)
 						}
+						// anything else on the child's stdout is chatter of the library under test
+						// (its logger writes there): not part of the protocol
 					}
 				}
 			case <-time.After(watchdog):
